@@ -42,6 +42,16 @@ CHECKS = {
         "text": "organization_iff, resource_caveats_iff (8 kinds, instances of C09), mutations_iff, commands_iff (prefix / exact), allowedRoles_iff, isMember_iff, permittedRoles_spec, fromMachine_iff, flySrc_iff, isUser_permits, access_wf_iff are proved for all values; validityWindow_iff_partial is proved for bounds whose absolute time is representable, with validityWindow_overflow_witness recording what the int64 wrap-around does beyond; the exact-instant rule (Spec.inWindow) is executed against the implementation at and around the bounds, extreme bounds included",
         "note": "tie is differential (family flyio); flyio.Access.Now() is the wall clock, used only far from any generated bound; MemberFeatures table cross-checked against the regenerated constants.",
     },
+    "C15": {
+        "props": "Macaroon.Props.C15",
+        "families": ["conc"],
+        "pobs": "conc",
+        "generated": True,
+        "technique": "Lean 4 proof over all thread counts and schedules of an RWMutex model (invariant + progress), instantiated on lock traces regenerated from /repo/bundle by a go/ast+go/types extractor; stress runner under watchdog (and -race in the thorough tier) as search/validation",
+        "design_ref": "DESIGN.md §3 C15",
+        "text": "flat_deadlock_free, flat_race_free, flat_all_finish (Lemmas/RWMutex.lean: any number of threads, any schedule, writer-preferring RWMutex) are instantiated by bundle_entry_points_flat (decide over the regenerated table of every exported Bundle entry point and path) to bundle_deadlock_free / bundle_race_free / bundle_all_return for goroutines running arbitrary call sequences, incl. Select-derived bundles (derived_bundles_share_guard). Partial: Go memory model, runtime mutex and pointee races via UnsafeMacaroon() are outside the model; callbacks assumed not to re-enter the bundle.",
+        "note": "tie = regenerated lock traces (extractor fails closed on constructs it does not understand; reader/writer classification of the tokens methods is computed from the source plus a one-entry expectation table) + stress runs of every (entry, writer) pair with a watchdog and an all-added-tokens-present post-condition.",
+    },
 }
 
 # reasons for properties not claimed yet (MANIFEST.not_applicable)
